@@ -112,7 +112,7 @@ def chuang_f3(individual):
     else:
         for i in range(2, len(individual) - 3, 4):
             total += inv_trap(individual[i:i + 4])
-        total += trap(individual[-2:] + individual[:2])
+        total += trap(list(individual[-2:]) + list(individual[:2]))
     return total,
 
 
